@@ -125,6 +125,9 @@ func genPar(t *rapid.T, allNames []string, tab []Entry) (ops []Op) {
 		Pct:  rapid.SampledFrom([]int{20, 50, 80}).Draw(t, "par_pct"),
 		Lst:  rapid.IntRange(0, 3).Draw(t, "par_list") == 0,
 	}
+	if rapid.IntRange(0, 3).Draw(t, "par_save") == 0 {
+		op.Sav = 1 + rapid.SampledFrom([]int{0, 0, 2, 8, 20}).Draw(t, "par_save_delay")
+	}
 	var (
 		starts []string
 		paths  map[string][]string
@@ -521,6 +524,15 @@ func (r *runner) par(op Op) error {
 			listCode, listBody, listErr = r.n.Mux.Do("GET", "/control/rewrite/list", nil)
 		})
 	}
+	if op.Sav > 0 {
+		names = append(names, "config/save")
+		fns = append(fns, func() {
+			sink.register(-1)
+			arrive(op.Sav - 1)
+			r.save()
+		})
+		c.Probe("par_save_task")
+	}
 
 	// Exchanges are attributed to the overlapped queries by message id.
 	var strayExchange string
@@ -562,6 +574,7 @@ func (r *runner) par(op Op) error {
 		return kernel.Violationf("deadlock: "+res.Deadlock, "%s: every task waits for a lock:\n%s", desc, res.Detail)
 	}
 	kernel.Wait()
+	r.countSaves()
 	c.Fault("concurrent_table_change")
 	c.Fault("live_table_change")
 	if strayExchange != "" {
